@@ -15,6 +15,7 @@ import base64
 import hashlib
 import json
 import os
+import re
 import subprocess
 import sys
 import time
@@ -41,6 +42,9 @@ def match_finding(findings, prop, viol):
             continue
         key = f.get("sig_prefix")
         if key is not None and not viol["sig"].startswith(key):
+            continue
+        rx = f.get("sig_regex")
+        if rx is not None and not re.search(rx, viol["sig"]):
             continue
         keys = f.get("sig_in")
         if keys is not None and viol["sig"] not in keys:
@@ -136,6 +140,10 @@ def run_check(mod, args):
     t0 = time.time()
     print(f"[{prop}] tier={tier} seed={seed} repo={common.REPO}")
     sys.stdout.flush()
+    import glob
+
+    for old_replay in glob.glob(os.path.join(common.VERIF, "replays", f"{prop}-*.json")):
+        os.remove(old_replay)
     tasks = mod.plan(tier, seed, args)
     print(f"[{prop}] {len(tasks)} tasks planned in {time.time() - t0:.1f}s")
     sys.stdout.flush()
